@@ -169,3 +169,136 @@ func SameToks(a, b []Tok) bool {
 	}
 	return true
 }
+
+// ---------------------------------------------------------------------------
+// Conservation of input (C11): the real driver run with a recorder around the
+// real state machine, so that discards and error stretches get spans too.
+
+// Stream is what one complete lexing run did with the input.
+type Stream struct {
+	Items    []Tok  // tok / discard / error (Start..End = stretch skipped) / eof
+	Stuck    string // non-empty: exact livelock description
+	Panic    string
+	Steps    int
+	Finished bool // EOF token was returned
+}
+
+// ImplStream lexes input to EOF with the real simplelexer over the real state
+// machine. Offsets of discards and error stretches are reconstructed by
+// decoding the input in parallel with the driver (the driver consumes exactly
+// one rune per consume event, and on an error skips to the character after the
+// next newline).
+func ImplStream(car *ctypes.Carrier, b *Built, input []byte) *Stream {
+	st := &Stream{}
+	fset := gotoken.NewFileSet()
+	file := fset.AddFile("in", -1, len(input))
+	base := int(file.Pos(0))
+	inner := car.NewSM()
+	reset, remove := HangGuard(b, car)
+	defer remove()
+	pos := 0      // offset of the next rune the driver will push
+	runStart := 0 // offset where the current run (since last accept/discard/error) began
+	type cfg struct {
+		key string
+		pos int
+	}
+	seen := map[cfg]bool{} // configurations at non-consuming events since the last consume
+	sm := &recSM{SM: inner, ResetTicks: reset}
+	sm.OnPush = func(r rune, ev int) {
+		switch ev {
+		case EvConsume:
+			_, w := utf8.DecodeRune(input[pos:])
+			pos += w
+			seen = map[cfg]bool{}
+			return
+		case EvDiscard:
+			st.Items = append(st.Items, Tok{Kind: "discard", Start: runStart, End: pos})
+			runStart = pos
+		case EvAccept:
+			runStart = pos
+		case EvError:
+			// the driver skips to the character after the next newline
+			p := pos
+			for p < len(input) && input[p] != '\n' {
+				_, w := utf8.DecodeRune(input[p:])
+				p += w
+			}
+			if p < len(input) {
+				p++
+			}
+			st.Items = append(st.Items, Tok{Kind: "error", Start: runStart, End: p})
+			pos = p
+			runStart = p
+			seen = map[cfg]bool{}
+			return
+		}
+		if ev == EvEOF {
+			return
+		}
+		// non-consuming event: the driver will push the same rune again
+		k := cfg{smKey(inner), pos}
+		if seen[k] {
+			panic(stuckLex{fmt.Sprintf("after %s at offset %d the state machine is in a configuration (state, mode, mode stack) it was already in at this offset: no input will ever be consumed again", EvName(ev), pos)})
+		}
+		seen[k] = true
+		if _, _, stack := inner.Key(); len(stack) > len(input)+64 {
+			panic(stuckLex{fmt.Sprintf("the mode stack grew to %d entries at offset %d without consuming input", len(stack), pos)})
+		}
+	}
+	defer func() {
+		if x := recover(); x != nil {
+			if s, ok := x.(stuckLex); ok {
+				st.Stuck = s.msg
+				return
+			}
+			st.Panic = fmt.Sprint(x)
+		}
+	}()
+	l := simplelexer.New(simplelexer.Config{StateMachine: sm, File: file, Input: input})
+	for {
+		t, typ := l.ReadToken()
+		start := int(t.Pos) - base
+		switch typ {
+		case simplelexer.EOF:
+			st.Items = append(st.Items, Tok{Kind: "eof", Start: start, End: start})
+			st.Finished = true
+			st.Steps = sm.Steps
+			return st
+		case simplelexer.ERROR:
+			// span recorded by OnPush; check the reported position
+			if n := len(st.Items); n == 0 || st.Items[n-1].Kind != "error" || st.Items[n-1].Start != start {
+				st.Items = append(st.Items, Tok{Kind: "error-position-mismatch", Start: start})
+			}
+		default:
+			st.Items = append(st.Items, Tok{Kind: "tok", Type: typ, Start: start, End: start + len(t.Str)})
+		}
+	}
+}
+
+type stuckLex struct{ msg string }
+
+// Tiling checks that the items account for every byte of the input exactly
+// once and in order. It returns "" or a description of the first gap/overlap.
+func (s *Stream) Tiling(n int) string {
+	cur := 0
+	for _, it := range s.Items {
+		switch it.Kind {
+		case "eof":
+			if it.Start != cur || cur != n {
+				return fmt.Sprintf("EOF reported at offset %d after accounting for %d of %d bytes", it.Start, cur, n)
+			}
+			return ""
+		case "tok", "discard", "error":
+			if it.Start != cur {
+				return fmt.Sprintf("%s starts at %d but the previous item ended at %d", it, it.Start, cur)
+			}
+			if it.End < it.Start {
+				return fmt.Sprintf("%s has negative length", it)
+			}
+			cur = it.End
+		default:
+			return "unexpected item " + it.String()
+		}
+	}
+	return "no EOF item"
+}
